@@ -335,9 +335,11 @@ func C13(r *eng.Run) {
 				for _, sg := range []string{"", "-"} {
 					s := genLit(fmt.Sprintf("%s|0|%s|%d|%d|%s", sg, j.kind, j.L, dot, ex))
 					checkUnmarshalJSON(w, s)
-					if j.L > 3 && j.L < 60 && dot < 0 {
-						// separators inside long numbers must be rejected
-						checkUnmarshalJSON(w, s[:len(sg)+j.L/2]+"_"+s[len(sg)+j.L/2:])
+					if j.L < 60 && (ex == "" || ex == "e-7") {
+						// a separator at any position turns a JSON number into a non-number
+						for i := 0; i <= len(s); i++ {
+							checkUnmarshalJSON(w, s[:i]+"_"+s[i:])
+						}
 					}
 				}
 			}
